@@ -1,81 +1,256 @@
 (* C14 — exit_returns (repaired muggle_evloop_exit: c_fix_exit = true).
    Invariant (DESIGN.md 6/C14): once to_exit is EXIT or WAKE, either a thread is about to write
-   the signal, or the loop thread is past a poll return in this iteration (it reaches the exit
-   test without blocking), or the signal descriptor is readable - so the loop cannot sleep for
-   ever; the exit test after any wake-up then leaves the loop, and the clear and exit
-   callbacks run before muggle_evloop_run returns.
+   the signal, or the loop thread is on its way to an exit test that will leave (it is handling
+   the wake-up whose promotion turns WAKE into EXIT, or EXIT is already set and it is in the rest
+   of the pass / in the timer callback), or the signal descriptor is readable / has been reported
+   to the pass in progress - so the loop cannot sleep for ever; the exit test then leaves the
+   loop, and the clear and exit callbacks run before muggle_evloop_run returns.
+   Holds whatever the contexts' I/O, the callbacks' scripts (which may themselves wake, hand over
+   and ask for the exit from the loop thread) and the timer.
    On the code as first found (c_fix_exit = false) the invariant is false: exit_returns_refuted. *)
 From MV Require Import C14.Model C14.ProofsBase C14.ProofsWake.
 
-Definition writer_in_flight (s : sys) : Prop := exists u k, thr s u = AWrite k.
+Definition is_writer (p : pc) : bool :=
+  match p with AWrite _ | Cb (QW _) => true | _ => false end.
+Definition writer_in_flight (s : sys) : Prop := exists u, is_writer (thr s u) = true.
 
-Definition ex_ok (C : config) (W : Prop) (c : nat) (e : bool) (p : pc) : Prop :=
+Definition ex_ok (C : config) (W : Prop) (s : sys) (p : pc) : Prop :=
   match p with
-  | SStart | AYield _ | SOp _ | AWrite _ | STail _ | AHLock _ _ | SHEnq _ _ | AHUnlock _ | SHW _ => W \/ 0 < c
-  | APoll | SRepoll => W \/ armed C c e
+  | SStart | AYield _ | SOp _ | AWrite _ | STail _ | AHLock _ _ | SHEnq _ _ | AHUnlock _ | SHW _ => W \/ 0 < cnt s
+  | APoll | SRepoll | SRel PhClose None => W \/ armed C (cnt s) (edge s)
+  | SPollRet | SRel PhClose (Some _) | ARel PhClose _ => to_exit s = ST_EXIT \/ W \/ armed_p C s
+  | Cb _ => if cbk s then to_exit s = ST_EXIT \/ W \/ armed C (cnt s) (edge s) else True
   | _ => True
   end.
 
 Definition EInv (C : config) (s : sys) : Prop :=
   (to_exit s = 0 \/ to_exit s = ST_EXIT \/ to_exit s = ST_WAKE) /\
-  (to_exit s <> 0 -> ex_ok C (writer_in_flight s) (cnt s) (edge s) (thr s (c_loop C))).
+  (to_exit s <> 0 -> ex_ok C (writer_in_flight s) s (thr s (c_loop C))).
 
-Lemma ex_ok_weaken C (W W' : Prop) c e p : (W -> W') -> ex_ok C W c e p -> ex_ok C W' c e p.
-Proof. intros H. destruct p; simpl; tauto. Qed.
-Lemma ex_ok_writer C (W : Prop) c e p : W -> ex_ok C W c e p.
-Proof. intros H. destruct p; simpl; tauto. Qed.
-Lemma ex_ok_written C (W : Prop) c p : ex_ok C W (S c) true p.
-Proof. destruct p; simpl; try exact I; right; first [lia | split; [lia|reflexivity]]. Qed.
-
-Lemma writer_persist (f : nat -> pc) t p :
-  (forall k, f t <> AWrite k) -> (exists u k, f u = AWrite k) -> exists u k, upd f t p u = AWrite k.
+Lemma ex_ok_weaken C (W W' : Prop) s p : (W -> W') -> ex_ok C W s p -> ex_ok C W' s p.
 Proof.
-  intros Hn (u & k & Hu). exists u, k. unfold upd. destruct (Nat.eqb_spec u t); [subst; exfalso; eapply Hn; eauto|exact Hu].
+  intros H. destruct p; simpl; try tauto; repeat match goal with ph : phase |- _ => destruct ph | o : option nat |- _ => destruct o end;
+    simpl; try tauto. destruct (cbk s); tauto.
 Qed.
-Lemma writer_new (f : nat -> pc) t k : exists u k', upd f t (AWrite k) u = AWrite k'.
-Proof. exists t, k. apply upd_same. Qed.
+Lemma ex_ok_writer C (W : Prop) s p : W -> ex_ok C W s p.
+Proof.
+  intros H. destruct p; simpl; try tauto; repeat match goal with ph : phase |- _ => destruct ph | o : option nat |- _ => destruct o end;
+    simpl; try tauto. destruct (cbk s); tauto.
+Qed.
+Lemma ex_ok_armed C (W : Prop) s p : armed C (cnt s) (edge s) -> ex_ok C W s p.
+Proof.
+  intros A. pose proof (armed_armed_p C s A) as A'. pose proof A as [A1 A2].
+  destruct p; simpl; try tauto; repeat match goal with ph : phase |- _ => destruct ph | o : option nat |- _ => destruct o end;
+    simpl; try tauto. destruct (cbk s); tauto.
+Qed.
+Lemma ex_ok_frame C (W : Prop) s s' p : cnt s' = cnt s -> edge s' = edge s -> psig s' = psig s -> todo s' = todo s ->
+  to_exit s' = to_exit s -> cbk s' = cbk s -> ex_ok C W s p -> ex_ok C W s' p.
+Proof.
+  intros E1 E2 E3 E4 E5 E6. unfold ex_ok, armed_p, armed, sig_pending. rewrite E1, E2, E3, E4, E5, E6. auto.
+Qed.
+
+Lemma writer_keep s s' t : (forall u, u <> t -> thr s' u = thr s u) -> is_writer (thr s t) = false ->
+  writer_in_flight s -> writer_in_flight s'.
+Proof.
+  intros Ho Hn [u Hu]. exists u. destruct (Nat.eq_dec u t) as [->|ne]; [congruence|]. rewrite (Ho u ne). exact Hu.
+Qed.
+Lemma writer_new s' t : is_writer (thr s' t) = true -> writer_in_flight s'.
+Proof. intros H. exists t. exact H. Qed.
 
 Lemma init_einv C : EInv C init.
 Proof. split; simpl; [auto|congruence]. Qed.
 
-Ltac dom := simpl; unfold ST_EXIT, ST_WAKE in *;
+Ltac dom := unfold ST_EXIT, ST_WAKE in *;
   repeat match goal with H : Nat.eqb _ _ = true |- _ => apply Nat.eqb_eq in H
                        | H : Nat.eqb _ _ = false |- _ => apply Nat.eqb_neq in H end; lia.
+
+(* ---- the tail segments ---- *)
+Definition ex_pre (C : config) (W : Prop) (s : sys) : Prop :=
+  to_exit s <> 0 -> to_exit s = ST_EXIT \/ W \/ armed C (cnt s) (edge s).
+Definition ex_pre_p (C : config) (W : Prop) (s : sys) : Prop :=
+  to_exit s <> 0 -> to_exit s = ST_EXIT \/ W \/ armed_p C s.
+
+Lemma exit_test_ex C W s t ns s' l : ex_pre C W s -> exit_test C s t ns = Some (s', l) ->
+  to_exit s' = to_exit s /\ (to_exit s' <> 0 -> ex_ok C W s' (thr s' t)).
+Proof.
+  unfold exit_test. intros Hp H.
+  destruct (to_exit s =? ST_EXIT) eqn:E; [destruct (c_bare C); [|destruct (reg s) as [|id r]]|];
+    inversion H; subst; clear H; rewrite thr_set_pc_same; (split; [reflexivity|]); simpl; auto.
+  nrmg. intros Hnz. destruct (Hp Hnz) as [K|[K|K]]; auto. exfalso. apply Nat.eqb_neq in E. contradiction.
+Qed.
+
+Lemma fin_pass_ex C W s t ns s' l : ex_pre C W s -> fin_pass C s t ns = Some (s', l) ->
+  to_exit s' = to_exit s /\ (to_exit s' <> 0 -> ex_ok C W s' (thr s' t)).
+Proof.
+  unfold fin_pass. intros Hp H.
+  destruct (c_tmo C && c_cb_timer C); [|eapply exit_test_ex; eauto].
+  match type of H with (if is_nil (cbs ?x) then _ else _) = _ => set (s1 := x) in * end.
+  assert (P1 : ex_pre C W s1) by (unfold ex_pre, s1; nrmg; exact Hp).
+  assert (E1 : to_exit s1 = to_exit s) by reflexivity.
+  destruct (is_nil (cbs s1)).
+  - destruct (exit_test_ex C W s1 t _ s' l P1 H) as [A B]. split; [congruence|exact B].
+  - inversion H; subst; clear H. rewrite thr_set_pc_same. split; [reflexivity|]. simpl. nrmg. exact Hp.
+Qed.
+
+Lemma seg_pass_ex C W s t ns s' l : ex_pre_p C W s -> seg_pass C s t ns = Some (s', l) ->
+  to_exit s' = to_exit s /\ (to_exit s' <> 0 -> ex_ok C W s' (thr s' t)).
+Proof.
+  intros Hp H. unfold seg_pass in H.
+  destruct (pass C (hup s) (peof s) (rdy s) (rdh s) (psig s) (pn s) (todo s) ns []) as [[[[n td] r] ns'] dr] eqn:E.
+  destruct r as [|id|].
+  - inversion H; subst; clear H. rewrite thr_set_pc_same. split; [reflexivity|intros _; exact I].
+  - inversion H; subst; clear H. rewrite thr_set_pc_same. split; [reflexivity|]. simpl. unfold armed_p, sig_pending. nrmg.
+    intros Hnz. destruct (Hp Hnz) as [K|[K|[A1 A2]]]; auto. right. right. split; [exact A1|]. intros Eb.
+    destruct (A2 Eb) as [K|[K1 K2]]; [left; exact K|right]. split; [exact K1|].
+    rewrite K1 in E. eapply pass_close_keeps_none; eauto.
+  - match type of H with fin_pass _ ?x _ _ = _ => set (s1 := x) in * end.
+    assert (P1 : ex_pre C W s1).
+    { unfold ex_pre, s1. nrmg. intros Hnz. destruct (Hp Hnz) as [K|[K|[A1 A2]]]; auto. right. right. split; [exact A1|]. intros Eb.
+      destruct (A2 Eb) as [K|[K1 K2]]; [exact K|]. rewrite K1 in E. apply pass_end_none_poll in E; [congruence|exact K2]. }
+    destruct (fin_pass_ex C W s1 t _ s' l P1 H) as [A B]. split; [rewrite A; reflexivity|exact B].
+Qed.
+
+Lemma wake_end_ex C W s t ns s' l :
+  (to_exit s = 0 \/ to_exit s = ST_EXIT \/ to_exit s = ST_WAKE) -> wake_end C s t ns = Some (s', l) ->
+  to_exit s' = (if Nat.eqb (to_exit s) ST_WAKE then ST_EXIT else to_exit s) /\ (to_exit s' <> 0 -> ex_ok C W s' (thr s' t)).
+Proof.
+  intros Hd H. unfold wake_end in H.
+  match type of H with seg_pass _ ?x _ _ = _ => set (s1 := x) in * end.
+  assert (E1 : to_exit s1 = if Nat.eqb (to_exit s) ST_WAKE then ST_EXIT else to_exit s) by reflexivity.
+  assert (P1 : ex_pre_p C W s1).
+  { intros Hnz. left. rewrite E1 in *. destruct (Nat.eqb_spec (to_exit s) ST_WAKE); [reflexivity|]. destruct Hd as [K|[K|K]]; congruence. }
+  destruct (seg_pass_ex C W s1 t _ s' l P1 H) as [A B]. split; [congruence|exact B].
+Qed.
+
+Lemma cb_end_ex C W s t ns s' l :
+  (to_exit s = 0 \/ to_exit s = ST_EXIT \/ to_exit s = ST_WAKE) ->
+  (cbk s = true -> ex_pre C W s) -> cb_end C s t ns = Some (s', l) ->
+  (to_exit s' = to_exit s \/ (to_exit s = ST_WAKE /\ to_exit s' = ST_EXIT)) /\ (to_exit s' <> 0 -> ex_ok C W s' (thr s' t)).
+Proof.
+  intros Hd Hp H. unfold cb_end in H. destruct (cbk s).
+  - destruct (exit_test_ex C W s t _ s' l (Hp eq_refl) H) as [A B]. split; [left; exact A|exact B].
+  - destruct (wake_end_ex C W s t _ s' l Hd H) as [A B]. split; [|exact B].
+    destruct (Nat.eqb_spec (to_exit s) ST_WAKE); auto.
+Qed.
+
+Lemma cb_next_ex C W s t k ns s' l :
+  (to_exit s = 0 \/ to_exit s = ST_EXIT \/ to_exit s = ST_WAKE) ->
+  (cbk s = true -> ex_pre C W s) -> cb_next C s t k ns = Some (s', l) ->
+  (to_exit s' = to_exit s \/ (to_exit s = ST_WAKE /\ to_exit s' = ST_EXIT)) /\ (to_exit s' <> 0 -> ex_ok C W s' (thr s' t)).
+Proof.
+  intros Hd Hp H. unfold cb_next in H. destruct (S k <? length (cbs s)).
+  - inversion H; subst; clear H. rewrite thr_set_pc_same. split; [left; reflexivity|]. nrmg. intros Hnz. simpl. nrmg.
+    destruct (cbk s) eqn:K; [apply Hp; [reflexivity|exact Hnz]|exact I].
+  - eapply cb_end_ex; eauto.
+Qed.
+
+Lemma dom_promote x : (x = 0 \/ x = ST_EXIT \/ x = ST_WAKE) ->
+  ((if Nat.eqb x ST_WAKE then ST_EXIT else x) = 0 \/ (if Nat.eqb x ST_WAKE then ST_EXIT else x) = ST_EXIT \/
+   (if Nat.eqb x ST_WAKE then ST_EXIT else x) = ST_WAKE).
+Proof. intros [H | [H | H]]; rewrite H; simpl; auto. Qed.
+
+(* ---- steps of the other threads ---- *)
+Lemma step_other_exit C s t ch s' l : c_fix_exit C = true -> BInv C s -> t <> c_loop C -> step C s t ch = Some (s', l) ->
+  cbk s' = cbk s /\
+  ((to_exit s' = to_exit s /\ (is_writer (thr s t) = false \/ 0 < cnt s' /\ edge s' = true)) \/
+   ((to_exit s' = ST_EXIT \/ to_exit s' = ST_WAKE) /\ is_writer (thr s' t) = true)).
+Proof.
+  intros Hfix B Hne Hs. pose proof (b_loop _ _ B t) as Hl.
+  step_inv Hs.
+  all: simpl in Hl; try (exfalso; apply Hne; apply Hl; reflexivity).
+  all: try (exfalso; apply Hne; apply Nat.eqb_eq; assumption).
+  all: try (rewrite Hfix in *; discriminate).
+  all: nrmg; rewrite ?upd_same.
+  all: match goal with E : thr _ _ = _ |- _ => rewrite ?E end; simpl.
+  all: split; [reflexivity|].
+  all: first [ left; split; [reflexivity|left; reflexivity]
+             | left; split; [reflexivity|right; split; [lia|reflexivity]]
+             | right; split; [auto|reflexivity] ].
+Qed.
 
 Lemma step_einv C s t ch s' l : c_fix_exit C = true ->
   BInv C s -> EInv C s -> step C s t ch = Some (s', l) -> EInv C s'.
 Proof.
-  intros Hfix B [Hd He] Hs. pose proof (b_loop _ _ B t) as Hl.
+  intros Hfix B [Hd He] Hs.
+  destruct (Nat.eq_dec t (c_loop C)) as [e|ne].
+  2: { (* another thread *)
+    destruct (step_other_sig C s t ch s' l B ne Hs) as (Ep & E1 & E2 & E3 & Hsig).
+    destruct (step_other_exit C s t ch s' l Hfix B ne Hs) as (Ek & Hx).
+    pose proof (fun u => step_other_thr C s t ch s' l u Hs) as Ho.
+    destruct Hx as [(Ex & Hw)|(Ex & Hw)].
+    - split; [rewrite Ex; exact Hd|]. rewrite Ex, Ep. intros Hnz. specialize (He Hnz).
+      destruct Hw as [Hw|[Hw1 Hw2]].
+      + destruct Hsig as [(E4 & E5 & E6)|(E4 & E5 & E6)].
+        * eapply ex_ok_frame; eauto. eapply ex_ok_weaken; [|exact He]. apply (writer_keep s s' t); auto.
+        * apply ex_ok_armed. rewrite E4, E5. split; [lia|reflexivity].
+      + apply ex_ok_armed. rewrite Hw2. split; [lia|reflexivity].
+    - split; [destruct Ex as [K|K]; rewrite K; auto|]. intros _. rewrite Ep. apply ex_ok_writer. apply (writer_new s' t). exact Hw. }
+  (* the loop thread *)
+  subst t.
+  pose proof (fun u => step_other_thr C s (c_loop C) ch s' l u Hs) as Ho.
+  assert (Wk : is_writer (thr s (c_loop C)) = false -> writer_in_flight s -> writer_in_flight s').
+  { intros K. apply (writer_keep s s' (c_loop C)); auto. }
   step_inv Hs.
-  all: simpl in Hl.
   all: try (rewrite Hfix in *; discriminate).
-  all: unfold EInv, writer_in_flight, set_pc; simpl; unfold upd at 2.
-  all: destruct (Nat.eqb_spec (c_loop C) t) as [e|ne];
-    [ rewrite e in *; match goal with E : thr _ ?t0 = _ |- _ => rewrite E in He; simpl in He end
-    | try (exfalso; apply ne; symmetry; apply Hl; reflexivity) ].
-  all: repeat match goal with ph : phase |- _ => destruct ph end; simpl in *.
-  all: split; [ try assumption; try dom | intros Hne ].
+  all: repeat match goal with ph : phase |- _ => destruct ph end.
+  all: cbn [ex_ok] in He; simpl in Wk.
+  all: try specialize (Wk eq_refl).
+  (* tails *)
+  all: try (match goal with
+            | H : cb_next _ ?s1 _ _ _ = Some _ |- _ =>
+              edestruct (fun a b => cb_next_ex C (writer_in_flight s) s1 _ _ _ _ _ a b H) as [A Bx]
+            | H : cb_end _ ?s1 _ _ = Some _ |- _ =>
+              edestruct (fun a b => cb_end_ex C (writer_in_flight s) s1 _ _ _ _ a b H) as [A Bx]
+            end;
+            [ nrmg; exact Hd
+            | nrmg; intros Kc; unfold ex_pre; nrmg; intros Hnz; rewrite Kc in He; apply He; exact Hnz
+            | nrmh A; split;
+              [ destruct A as [A|[A1 A2]]; [rewrite A; exact Hd|rewrite A2; auto]
+              | intros Hnz; eapply ex_ok_weaken; [exact Wk|apply Bx; exact Hnz] ] ]; fail).
+  all: try (match goal with H : wake_end _ ?s1 _ _ = Some _ |- _ =>
+              edestruct (fun a => wake_end_ex C (writer_in_flight s) s1 _ _ _ _ a H) as [A Bx] end;
+            [ nrmg; exact Hd
+            | nrmh A; split; [rewrite A; apply dom_promote; exact Hd
+                             | intros Hnz; eapply ex_ok_weaken; [exact Wk|apply Bx; exact Hnz] ] ]; fail).
+  all: try (match goal with H : seg_pass _ ?s1 _ _ = Some _ |- _ =>
+              edestruct (fun a => seg_pass_ex C (writer_in_flight s) s1 _ _ _ _ a H) as [A Bx] end;
+            [ unfold ex_pre_p, armed_p, sig_pending in *; nrmg; exact He
+            | nrmh A; split; [rewrite A; exact Hd
+                             | intros Hnz; eapply ex_ok_weaken; [exact Wk|apply Bx; exact Hnz] ] ]; fail).
+  all: try (match goal with H : fin_pass _ ?s1 _ _ = Some _ |- _ =>
+              edestruct (fun a => fin_pass_ex C (writer_in_flight s) s1 _ _ _ _ a H) as [A Bx] end;
+            [ unfold ex_pre; nrmg; intros Hnz;
+              first [ right; apply He; exact Hnz
+                    | (* bare loop: the promotion *)
+                      left; destruct (Nat.eqb_spec (to_exit s) ST_WAKE); [reflexivity|]; destruct Hd as [K|[K|K]]; congruence
+                    | (* after a close, poll back-end *)
+                      destruct (He Hnz) as [K|[K|[K1 K2]]]; [left; exact K|right; left; exact K|right; right];
+                      split; [exact K1|]; intros Eb; exfalso; unfold poll_done in *; rewrite Eb in *; discriminate ]
+            | nrmh A; split; [rewrite A; first [exact Hd | apply dom_promote; exact Hd]
+                             | intros Hnz; eapply ex_ok_weaken; [exact Wk|apply Bx; exact Hnz] ] ]; fail).
+  (* explicit steps *)
+  all: unfold EInv; nrmg; rewrite ?upd_same; cbn [ex_ok]; nrmg.
+  all: (split; [first [exact Hd | auto]|]).
+  all: intros Hnz.
+  (* nothing to show at this point of the loop *)
   all: try exact I.
+  all: try (match goal with |- if cbk ?x then _ else True => destruct (cbk x) eqn:Kc; [|exact I] end).
+  (* the stepping thread is now about to write the signal *)
+  all: try (left; apply (writer_new _ (c_loop C)); rewrite thr_set_pc_same; reflexivity).
+  all: try (right; left; apply (writer_new _ (c_loop C)); rewrite thr_set_pc_same; reflexivity).
   (* a write of the signal *)
-  all: try apply ex_ok_written.
-  (* an exit request: the requesting thread is about to write *)
-  all: try (apply ex_ok_writer; apply writer_new).
-  all: try (left; apply writer_new).
-  (* nothing relevant changed: a writer in flight stays in flight *)
-  all: try (specialize (He Hne); revert He; apply ex_ok_weaken; apply writer_persist;
-            intros k' Hk; congruence).
-  all: try (specialize (He Hne); destruct He as [He|He]; [left; apply writer_persist; [intros k' Hk; congruence|exact He]|right; exact He]).
-  (* WAKE -> EXIT promotion keeps the flag in its domain; with an exit pending the exit test
-     cannot send the loop back to the poll *)
-  all: try (destruct (to_exit s =? ST_WAKE); [right; left; reflexivity|assumption]).
-  all: try (exfalso; unfold ST_EXIT, ST_WAKE in *;
-            destruct (Nat.eqb_spec (to_exit s) 2); [discriminate|];
-            match goal with Hb : (_ =? 1) = false |- _ => apply Nat.eqb_neq in Hb end; lia).
-  - specialize (He Hne). destruct He as [He|He].
-    + left. apply writer_persist; [intros k' Hk; congruence|exact He].
-    + right. split; [lia|intros _; apply Nat.ltb_lt; lia].
-  - exfalso; apply ne. symmetry. apply Nat.eqb_eq. assumption.
-  - right. lia.
+  all: try (right; lia).
+  all: try (right; right; split; [lia|reflexivity]).
+  (* nothing relevant changed *)
+  all: try (specialize (He Hnz); destruct He as [K|K]; [left; apply Wk; exact K|right; exact K]).
+  all: try (specialize (He Hnz); destruct He as [K|[K|K]]; [left; exact K|right; left; apply Wk; exact K|right; right; exact K]).
+  - (* run() starts: the epoll registration finds the signal readable *)
+    specialize (He Hnz). destruct He as [K|K]; [left; apply Wk; exact K|right]. split; [exact K|]. intros _. apply Nat.ltb_lt. exact K.
+  - (* a poll call that reports something *)
+    specialize (He Hnz). destruct He as [K|[A1 A2]]; [right; left; apply Wk; exact K|right; right].
+    assert (R : ready C s = true) by (apply armed_ready; split; assumption).
+    unfold armed_p, sig_pending. nrmg. rewrite R. split; [exact A1|]. intros Eb. right. split; [reflexivity|].
+    unfold pass_plan. rewrite Eb. unfold ins_sig. apply in_or_app. right. left. reflexivity.
 Qed.
 
 Theorem einv_all C sched : c_fix_exit C = true -> EInv C (exec sys (step C) init sched).
@@ -89,11 +264,16 @@ Proof.
 Qed.
 
 
-(* past a poll return in the current iteration: the exit test is reached without blocking on I/O *)
-Definition past_poll (p : pc) : bool :=
+(* the loop thread is on its way to an exit test that will leave, without blocking on I/O: it is
+   handling the wake-up (the promotion WAKE -> EXIT is ahead: clear-up, on_wake, the user's wake
+   callback), or EXIT is set and it is in the rest of the pass / in the timer callback, or (epoll)
+   the signal has been reported to the pass in progress and handle_wakeup is still to come *)
+Definition past_poll (C : config) (s : sys) (p : pc) : Prop :=
   match p with
-  | SPollRet | ARead | SWake | AWLock | SRel PhDrain _ | ARel PhDrain _ | AWUnlock | SWakeEnd => true
-  | _ => false
+  | ARead | SWake | AWLock | SRel PhDrain _ | ARel PhDrain _ | AWUnlock | SWakeEnd => True
+  | Cb _ => cbk s = false \/ to_exit s = ST_EXIT
+  | SPollRet | SRel PhClose (Some _) | ARel PhClose _ => to_exit s = ST_EXIT \/ (c_be C = BEpoll /\ sig_pending s)
+  | _ => False
   end.
 (* the loop has left the while(1): clear callbacks, exit callback, return *)
 Definition leaving (p : pc) : bool :=
@@ -102,53 +282,99 @@ Definition leaving (p : pc) : bool :=
   | _ => false
   end.
 
+Lemma armed_p_cases C s : armed_p C s -> (c_be C = BEpoll /\ sig_pending s) \/ ready C s = true.
+Proof.
+  intros [A1 A2]. destruct (c_be C) eqn:Eb.
+  - right. unfold ready. rewrite Eb. apply Nat.ltb_lt. exact A1.
+  - right. unfold ready. rewrite Eb. apply Nat.ltb_lt. exact A1.
+  - destruct (A2 eq_refl) as [K|K]; [right|left; auto].
+    unfold ready. rewrite Eb, K. simpl. apply Nat.ltb_lt. exact A1.
+Qed.
+
 (* the invariant of DESIGN.md: EXIT (or WAKE) pending => a writer is in flight, or the loop
-   thread is past a poll return in this iteration, or the signal descriptor is readable *)
+   thread is past a poll return on its way to an exit test that leaves, or the signal descriptor
+   is readable *)
 Theorem exit_pending_invariant C sched : c_fix_exit C = true ->
   let s := exec sys (step C) init sched in
   (to_exit s = 0 \/ to_exit s = ST_EXIT \/ to_exit s = ST_WAKE) /\
   (to_exit s <> 0 ->
    (prerun (thr s (c_loop C)) = true -> writer_in_flight s \/ 0 < cnt s) /\
    (in_body (thr s (c_loop C)) = true ->
-    writer_in_flight s \/ past_poll (thr s (c_loop C)) = true \/ ready C s = true)).
+    writer_in_flight s \/ past_poll C s (thr s (c_loop C)) \/ ready C s = true)).
 Proof.
   intros Hfix s. destruct (einv_all C sched Hfix) as [Hd He]. fold s in Hd, He. split; [exact Hd|].
   intros Hne. specialize (He Hne). split.
   - intros Hp. destruct (thr s (c_loop C)); simpl in *; try discriminate; exact He.
-  - intros Hb. destruct (thr s (c_loop C)) as [| | | | | | | | | | | | | | |ph ?|ph ?| | | | | | |];
-      simpl in *; try discriminate; try (right; left; reflexivity);
+  - intros Hb. destruct (thr s (c_loop C)); simpl in *; try discriminate;
+      repeat match goal with ph : phase |- _ => destruct ph | o : option nat |- _ => destruct o end;
+      simpl in *; try discriminate; try (right; left; exact I);
       try (destruct He as [He|He]; [left; exact He|right; right; apply armed_ready; exact He]);
-      destruct ph; simpl in *; try discriminate; right; left; reflexivity.
+      try (destruct He as [He|[He|He]]; [right; left; left; exact He|left; exact He|];
+           destruct (armed_p_cases C s He) as [K|K]; [right; left; right; exact K|right; right; exact K]).
+    destruct (cbk s); [|right; left; left; reflexivity].
+    destruct He as [He|[He|He]]; [right; left; right; exact He|left; exact He|right; right; apply armed_ready; exact He].
 Qed.
 
-(* ... hence a poll attempt made after an exit request has completed never finds nothing *)
+(* ... hence a poll attempt made after an exit request has completed never finds nothing: it
+   reports the signal to the pass *)
 Corollary exit_poll_never_sleeps C sched : c_fix_exit C = true ->
   let s := exec sys (step C) init sched in
   to_exit s <> 0 -> ~ writer_in_flight s -> thr s (c_loop C) = APoll ->
-  exists s', step C s (c_loop C) 0 = Some (s', ev_poll true) /\ thr s' (c_loop C) = SPollRet.
+  forall ch, exists s' n, step C s (c_loop C) ch = Some (s', ev_poll true n) /\ 0 < n /\
+                          thr s' (c_loop C) = SPollRet /\ sig_pending s'.
 Proof.
-  intros Hfix s Hne Hnw Hp. pose proof (binv_all C sched) as B. fold s in B.
+  intros Hfix s Hne Hnw Hp ch. pose proof (binv_all C sched) as B. fold s in B.
   destruct (einv_all C sched Hfix) as [_ He]. fold s in He. specialize (He Hne). rewrite Hp in He. simpl in He.
   destruct He as [He|He]; [contradiction|].
   destruct (b_valid _ _ B (c_loop C)) as [Hn Hc]; [rewrite Hp; discriminate|].
   unfold step. rewrite Hn, Hc, Hp. rewrite Bool.orb_true_r. simpl.
-  rewrite (armed_ready C s He). eexists; split; [reflexivity|]. apply thr_set_pc_same.
+  rewrite (armed_ready C s He). simpl. eexists. eexists. split; [reflexivity|]. split; [lia|].
+  split; [apply thr_set_pc_same|]. unfold sig_pending. nrmg. split; [reflexivity|].
+  unfold pass_plan. destruct (c_be C); simpl; auto.
+  - apply in_or_app. right. left. reflexivity.
+  - unfold ins_sig. apply in_or_app. right. left. reflexivity.
 Qed.
 
-(* ... and the exit test that follows any wake-up handling leaves the loop *)
+(* ... and the exit test leaves the loop as soon as to_exit is EXIT, wherever it is reached (at
+   the end of a pass, after the timer callback, with or without a wake-up in that pass) *)
+Lemma exit_test_leaves_loop C s t ns s' l : to_exit s = ST_EXIT -> exit_test C s t ns = Some (s', l) ->
+  leaving (thr s' t) = true /\ to_exit s' = ST_EXIT.
+Proof.
+  unfold exit_test. intros E H. rewrite E in H. simpl in H.
+  destruct (c_bare C); [|destruct (reg s)]; inversion H; subst; clear H; rewrite thr_set_pc_same; split; auto.
+Qed.
+
+(* the handling of a wake-up turns a pending request into EXIT: at the end of handle_wakeup (after
+   the user's wake callback, when there is one) *)
+Lemma wake_end_promotes C s t ns s' l :
+  (to_exit s = 0 \/ to_exit s = ST_EXIT \/ to_exit s = ST_WAKE) -> to_exit s <> 0 ->
+  wake_end C s t ns = Some (s', l) -> to_exit s' = ST_EXIT.
+Proof.
+  intros Hd Hnz H. apply wake_end_frame in H. destruct H as (_ & A & _). rewrite A.
+  destruct (Nat.eqb_spec (to_exit s) ST_WAKE); [reflexivity|]. destruct Hd as [K|[K|K]]; congruence.
+Qed.
+
+(* the step of the loop thread at the end of on_wake, with an exit pending: either the user's
+   wake callback has a script to run first (the promotion follows it), or to_exit is EXIT when the
+   step is over *)
 Corollary exit_test_leaves C sched : c_fix_exit C = true ->
   let s := exec sys (step C) init sched in
   to_exit s <> 0 -> thr s (c_loop C) = SWakeEnd ->
-  exists s', step C s (c_loop C) 0 = Some (s', LPlain (wake_notes C)) /\
-             leaving (thr s' (c_loop C)) = true /\ to_exit s' = ST_EXIT.
+  exists s' l, step C s (c_loop C) 0 = Some (s', l) /\
+    ((thr s' (c_loop C) = Cb (QY 0) /\ cbk s' = false /\ to_exit s' = to_exit s) \/ to_exit s' = ST_EXIT).
 Proof.
   intros Hfix s Hne Hp. pose proof (binv_all C sched) as B. fold s in B.
   destruct (einv_all C sched Hfix) as [Hd _]. fold s in Hd.
   destruct (b_valid _ _ B (c_loop C)) as [Hn Hc]; [rewrite Hp; discriminate|].
-  unfold step. rewrite Hn, Hc, Hp. rewrite Bool.orb_true_r. simpl.
-  assert (Hte : (if to_exit s =? ST_WAKE then ST_EXIT else to_exit s) = ST_EXIT).
-  { unfold ST_EXIT, ST_WAKE in *. destruct (Nat.eqb_spec (to_exit s) 2); lia. }
-  rewrite Hte. simpl. destruct (reg s); eexists; (split; [reflexivity|]); rewrite thr_set_pc_same; split; reflexivity.
+  unfold step. rewrite Hn, Hc, Hp. rewrite Bool.orb_true_r. cbv beta iota zeta delta [negb].
+  destruct (c_cb_wake C).
+  - match goal with |- context [if is_nil (cbs ?x) then _ else _] => set (s1 := x) end.
+    destruct (is_nil (cbs s1)).
+    + destruct (wake_end C s1 (c_loop C) (wake_notes C)) as [[s' l]|] eqn:E; [|exfalso; eapply wake_end_total; eauto].
+      exists s', l. split; [reflexivity|]. right. eapply wake_end_promotes; [| |exact E]; unfold s1; nrmg; assumption.
+    + eexists. eexists. split; [reflexivity|]. left. rewrite thr_set_pc_same. unfold s1. nrmg. auto.
+  - destruct (wake_end C s (c_loop C) []) as [[s' l]|] eqn:E; [|exfalso; eapply wake_end_total; eauto].
+    exists s', l. split; [reflexivity|]. right. eapply wake_end_promotes; eauto.
 Qed.
 
 (* the same for a bare loop (no handle): the promotion and the exit test follow the clear-up in
@@ -157,21 +383,52 @@ Qed.
 Corollary exit_test_leaves_bare C sched : c_fix_exit C = true -> c_bare C = true ->
   let s := exec sys (step C) init sched in
   to_exit s <> 0 -> thr s (c_loop C) = SWake ->
-  exists s', step C s (c_loop C) 0 = Some (s', LPlain (wake_notes C ++ bare_exit_notes C)) /\
+  exists s' ns, step C s (c_loop C) 0 = Some (s', LPlain (wake_notes C ++ ns ++ bare_exit_notes C)) /\
              thr s' (c_loop C) = AFin /\ returned s' = true /\ to_exit s' = ST_EXIT.
 Proof.
   intros Hfix Hb s Hne Hp. pose proof (binv_all C sched) as B. fold s in B.
   destruct (einv_all C sched Hfix) as [Hd _]. fold s in Hd.
   destruct (b_valid _ _ B (c_loop C)) as [Hn Hc]; [rewrite Hp; discriminate|].
-  unfold step. rewrite Hn, Hc, Hp, Hb. rewrite Bool.orb_true_r. simpl.
+  unfold step. rewrite Hn, Hc, Hp, Hb. rewrite Bool.orb_true_r. cbv beta iota zeta delta [negb].
   assert (Hte : (if to_exit s =? ST_WAKE then ST_EXIT else to_exit s) = ST_EXIT).
   { unfold ST_EXIT, ST_WAKE in *. destruct (Nat.eqb_spec (to_exit s) 2); lia. }
-  rewrite Hte. simpl. eexists; split; [reflexivity|]. rewrite thr_set_pc_same. repeat split.
+  rewrite Hte. unfold fin_pass. rewrite Hb.
+  destruct (c_tmo C && c_cb_timer C); cbv beta iota zeta delta [is_nil]; nrmg; cbv beta iota zeta delta [is_nil];
+    unfold exit_test; nrmg; rewrite Hb; cbv beta iota delta [Nat.eqb ST_EXIT].
+  - eexists. exists [(n_timer, 0%Z)].
+    split; [rewrite <- app_assoc; reflexivity|]. rewrite thr_set_pc_same. nrmg. auto.
+  - eexists. exists []. split; [reflexivity|]. rewrite thr_set_pc_same. nrmg. auto.
 Qed.
 
 (* progress: whenever the loop thread has started and not finished, it can take a step, or it
    waits for the handle's mutex and the holder (a hand-over in progress) can take a step;
    the only unbounded wait is the poll, covered by the two corollaries above *)
+Lemma loop_stuck_mutex C s t : BInv C s -> thr s t <> SStart -> thr s t <> Done -> step C s t 0 = None ->
+  exists u, mtx s = Some u /\ holds (thr s t) = false.
+Proof.
+  intros B Hst Hdn Hnone.
+  destruct (b_valid _ _ B t Hst) as [Hn Hc].
+  unfold step, seg_drain, seg_clear, seg_exit in Hnone. rewrite Hn, Hc, Bool.orb_true_r in Hnone. simpl in Hnone.
+  destruct (thr s t) eqn:Ep; try congruence; simpl;
+    repeat match type of Hnone with
+    | (if ?a then _ else _) = None => destruct a
+    | (match ?a with _ => _ end) = None => destruct a eqn:?
+    end; try discriminate; eauto;
+    exfalso; first [ eapply cb_next_total; eassumption | eapply cb_end_total; eassumption | eapply wake_end_total; eassumption
+                   | eapply seg_pass_total; eassumption | eapply fin_pass_total; eassumption | eapply exit_test_total; eassumption ].
+Qed.
+
+Lemma holder_can_step C s u : BInv C s -> mtx s = Some u -> step C s u 0 <> None.
+Proof.
+  intros B Hu. pose proof (b_free _ _ B u Hu) as Hhu.
+  destruct (b_valid _ _ B u) as [Hnu Hcu]; [intros E; rewrite E in Hhu; discriminate|].
+  unfold step, seg_drain, seg_exit. rewrite Hnu, Hcu, Bool.orb_true_r. simpl.
+  destruct (thr s u) eqn:Ep; simpl in Hhu; try discriminate;
+    repeat match goal with ph : phase |- _ => destruct ph | o : option nat |- _ => destruct o | q : spc |- _ => destruct q end;
+    simpl in Hhu; try discriminate;
+    repeat match goal with |- context [match ?x with _ => _ end] => destruct x end; discriminate.
+Qed.
+
 Theorem loop_never_stuck C sched :
   let s := exec sys (step C) init sched in
   thr s (c_loop C) <> SStart -> thr s (c_loop C) <> Done ->
@@ -179,23 +436,9 @@ Theorem loop_never_stuck C sched :
   exists u, u <> c_loop C /\ mtx s = Some u /\ step C s u 0 <> None.
 Proof.
   intros s Hst Hdn Hnone. pose proof (binv_all C sched) as B. fold s in B.
-  destruct (b_valid _ _ B (c_loop C) Hst) as [Hn Hc].
-  assert (Hm : exists u, mtx s = Some u /\ holds (thr s (c_loop C)) = false).
-  { unfold step, seg_drain, seg_clear, seg_exit in Hnone. rewrite Hn, Hc, Bool.orb_true_r in Hnone. simpl in Hnone.
-    destruct (thr s (c_loop C)) eqn:Ep; try congruence; simpl;
-      repeat match type of Hnone with
-      | (if ?a then _ else _) = None => destruct a
-      | (match ?a with _ => _ end) = None => destruct a eqn:?
-      end; try discriminate; eauto. }
-  destruct Hm as (u & Hu & Hh). exists u.
+  destruct (loop_stuck_mutex C s (c_loop C) B Hst Hdn Hnone) as (u & Hu & Hh). exists u.
   pose proof (b_free _ _ B u Hu) as Hhu.
-  assert (Hne : u <> c_loop C) by (intros ->; congruence).
-  split; [exact Hne|]. split; [exact Hu|].
-  assert (Hnl : is_loop_pc (thr s u) = false).
-  { destruct (is_loop_pc (thr s u)) eqn:E; [|reflexivity]. exfalso. apply Hne. eapply b_loop; eauto. }
-  destruct (b_valid _ _ B u) as [Hnu Hcu]; [intros E; rewrite E in Hhu; discriminate|].
-  unfold step. rewrite Hnu, Hcu, Bool.orb_true_r. simpl.
-  destruct (thr s u); simpl in Hhu, Hnl; try discriminate; simpl; discriminate.
+  split; [intros ->; congruence|]. split; [exact Hu|]. apply holder_can_step; assumption.
 Qed.
 
 (* the code as first found: the three-step schedule "creator calls exit; loop thread records its
